@@ -14,7 +14,7 @@ CORE_TUS = ['op.cc', 'stack.cc', 'value.cc', 'scon.cc', 'layout.cc', 'value-seq.
             'constant.cc', 'int.cc', 'overload.cc', 'selector.cc', 'builtin.cc', 'docstring.cc', 'value-closure.cc',
             'builtin-closure.cc', 'pred_result.cc']
 
-ENTRIES = ['c01_alt2', 'c01_or2', 'c01_assert', 'c01_ifelse', 'c01_subx', 'c01_capture', 'c01_alt_in_or', 'c01_alt_in_alt']
+ENTRIES = ['c01_alt2', 'c01_or2', 'c01_assert', 'c01_ifelse', 'c01_subx', 'c01_subx_mut', 'c01_capture', 'c01_alt_in_or', 'c01_alt_in_alt']
 
 def params(ctx):
     # (T inputs, MAXC results per input in the 1-/2-sub-expression harnesses)
@@ -34,7 +34,7 @@ def modules(ctx):
 
 # scenario digits per entry: list of radices after (n, first); used to enumerate VALID scenario numbers in the driver
 def digits(entry, T, MC):
-    S = {'c01_alt2': (2, MC), 'c01_or2': (2, MC), 'c01_assert': (1, 2), 'c01_ifelse': (3, 1), 'c01_subx': (1, MC),
+    S = {'c01_alt2': (2, MC), 'c01_or2': (2, MC), 'c01_assert': (1, 2), 'c01_ifelse': (3, 1), 'c01_subx': (1, MC), 'c01_subx_mut': (1, MC),
          'c01_capture': (1, MC), 'c01_alt_in_or': (3, 1), 'c01_alt_in_alt': (3, 1)}[entry]
     return S
 
@@ -70,7 +70,7 @@ def run(ctx):
                         'control flow inside one scenario is concrete (DESIGN 2.5): the solver decides over scenario numbers in a chunk and payload tokens']
     chunk = 4
     jobs = []
-    quick_entries = ['c01_alt2', 'c01_or2', 'c01_assert', 'c01_subx', 'c01_capture', 'c01_alt_in_alt']
+    quick_entries = ['c01_alt2', 'c01_or2', 'c01_assert', 'c01_subx', 'c01_subx_mut', 'c01_capture', 'c01_alt_in_alt']
     plan = [(mods['c01'], e, T, MC) for e in (quick_entries if ctx.tier == 'quick' else ENTRIES)]
     if 'c01t3' in mods:
         plan += [(mods['c01t3'], e, 3, 1) for e in ('c01_alt_in_alt', 'c01_alt_in_or', 'c01_alt2')]
